@@ -8,7 +8,7 @@ use vnet::{Report, Rng};
 fn gen_calls(rng: &mut Rng, n: usize, seq0: u32) -> Vec<CallSpec> {
     (0..n)
         .map(|j| CallSpec {
-            kind: if rng.chance(1, 4) { Kind::Fail } else { Kind::Echo },
+            kind: if rng.chance(1, 4) { Kind::Fail } else if rng.chance(1, 14) { Kind::Poison } else { Kind::Echo },
             seq: seq0 + j as u32,
             oneway: rng.chance(1, 4),
             more: rng.chance(1, 10),
@@ -82,6 +82,7 @@ fn check(scn: &Scenario, rep: &mut Report) {
     }
     rep.add("in_handle_arrivals", out.applied.iter().filter(|a| a.2).count() as u64);
     rep.add("clients_with_stray_terminators", scn.conns.iter().filter(|c| !c.stray.is_empty()).count() as u64);
+    rep.add("calls_whose_reply_cannot_be_encoded", scn.conns.iter().flat_map(|c| c.calls.iter()).filter(|c| c.kind == Kind::Poison).count() as u64);
     rep.add("oneway_calls", scn.conns.iter().flat_map(|c| c.calls.iter()).filter(|c| c.oneway).count() as u64);
     let mut stats = std::collections::BTreeMap::new();
     let mut vs = check_reference("C08", scn, &out, &mut stats);
